@@ -154,7 +154,7 @@ func runC11(r *Run) {
 			if !known {
 				continue
 			}
-			if firstCase == nil || br.If.Block().Dominates(firstCase.Block()) {
+			if firstCase == nil || dom(br.If.Block(), firstCase.Block()) {
 				firstCase = br.If
 			}
 			// the true edge leads to the matching Bind method
@@ -338,7 +338,7 @@ func runC11(r *Run) {
 					if cellName(br.Info.Root) == "err" {
 						if s, ok := br.nilSlot(false); ok {
 							_, hit := reachEdge(edge{br.If.Block(), s}, func(in ssa.Instruction) bool { return in == fb[0].Instr }, nil, nil)
-							if hit == nil && br.If.Block().Dominates(fb[0].Block()) {
+							if hit == nil && dom(br.If.Block(), fb[0].Block()) {
 								okLatch = true
 							}
 						}
